@@ -1,25 +1,25 @@
 CONSTANTS
   FlowSet = {"flows/a.yaml", "flows/b.yaml"}
-  Endpoints = {"apply_flows"}
+  Endpoints = {"configuration", "apply_flows"}
   Methods = {"PUT"}
   MaxNth = 1
   WithBadB64 = FALSE
   MxOld = {"m1"}
   GwOld = {"none"}
   MaxUpdates = 1
-  PayloadCats = {1}
+  PayloadCats = {1, 3}
   AnchorFlows = {"flows/a.yaml"}
   Paths <- PathsMC
   Cat <- CatMC
   Inert <- NestedFlows
   Unseen = {}
-  NestedPP = {}
+  NestedPP = {"path_params/team/np.yaml"}
   NestedFlows = {}
   Txns = {1}
   RestoreWrongDirection = FALSE
   PublishBeforeInit = FALSE
   ContinueAfter405 = FALSE
-  ApplyNoBackup = TRUE
+  ApplyNoBackup = FALSE
   NoReloadAfterRestore = FALSE
   MetricsToDefaultPath = FALSE
   StaleBackup = FALSE
